@@ -242,9 +242,17 @@ def body_eot(case):
     maxabs = 0.0
     maxstep = 0.0
     prev_j = None
+    # every other walk steps one Epoch object through the days with set() (a caller's loop
+    # variable), the others build a new object per day
+    stepper = Epoch(jde0) if int(jde0) % 2 else None
     for i in range(n):
         j = jde0 + i
-        m, s = Sun.equation_of_time(Epoch(j))
+        if stepper is not None:
+            stepper.set(j)
+            ej = stepper
+        else:
+            ej = Epoch(j)
+        m, s = Sun.equation_of_time(ej)
         cands = _eot_candidates(m, s)
         y = cal.from_jdn(int(math.floor(j + 0.5)))[0]
         bound = 17.5 * 60.0 if 1800 <= y <= 2200 else 25.0 * 60.0
@@ -297,6 +305,8 @@ def body_eot(case):
     else:
         lab("eot_sweep_era:2200..4000")
     lab("eot_sweeps")
+    if stepper is not None:
+        lab("eot_sweep_with_one_epoch_object_moved_by_set")
     return {"n": n, "nt": nt, "labels": labels,
             "show": {"max_abs_s": maxabs, "max_step_s": maxstep}}
 
